@@ -105,6 +105,30 @@ impl<'a> Read for ChunkedBufRead<'a> {
 	}
 }
 
+/// `&[u8]` as `Read` with the same end-of-input call horizon as [`ChunkedBufRead`]: meant to sit
+/// inside a `std::io::BufReader`, so that a decoder polling an exhausted std reader forever gets an
+/// I/O error instead of hanging the check.
+pub struct HorizonRead<'a> {
+	data: &'a [u8],
+	eof_reads: usize,
+}
+impl<'a> HorizonRead<'a> {
+	pub fn new(data: &'a [u8]) -> Self {
+		HorizonRead { data, eof_reads: 0 }
+	}
+}
+impl Read for HorizonRead<'_> {
+	fn read(&mut self, buf: &mut [u8]) -> io::Result<usize> {
+		if self.data.is_empty() && !buf.is_empty() {
+			self.eof_reads += 1;
+			if self.eof_reads > 10_000 {
+				return Err(io::Error::new(io::ErrorKind::Other, "harness horizon: the reader was polled 10 000 times after the end of its input"));
+			}
+		}
+		self.data.read(buf)
+	}
+}
+
 // ---------------------------------------------------------------------------------------------
 
 #[derive(Default)]
